@@ -7,6 +7,8 @@
 #include <cstdio>
 #include <fstream>
 #include <sstream>
+#include <utility>
+#include <type_traits>
 #include <signal.h>
 #include <unistd.h>
 #include <quadmath.h>
@@ -155,6 +157,45 @@ static bool kindsAgree(Which w, const JsonDocument& d, const std::string& ref) {
   return ok;
 }
 
+// one destination of `cap` bytes laid out as [G guard bytes][cap bytes][G guard bytes], all preset to 0xEE
+static const size_t GUARD = 8;
+static mj::Value judgeBuffer(Which w, const std::string& ref, size_t cap, size_t n, const unsigned char* buf, const char* dst) {
+  const size_t G = GUARD;
+  size_t len = ref.size();
+  size_t m = cap < len ? cap : len;
+  bool prefix = n <= cap && memcmp(buf + G, ref.data(), m) == 0;
+  bool guard = true;
+  for (size_t i = 0; i < G; i++) if (buf[i] != 0xEE || buf[G + cap + i] != 0xEE) guard = false;
+  // bytes of the buffer beyond what was produced (and beyond a terminator) must be untouched
+  bool nul = len < cap && buf[G + len] == 0;
+  for (size_t i = m + (nul ? 1 : 0); i < cap; i++) if (buf[G + i] != 0xEE) { if (w == MSGPACK || i != len) guard = false; }
+  mj::Value e = mj::Value::mkObj();
+  e.set("cap", mj::Value::mkInt((long long)cap));
+  e.set("ret", mj::Value::mkInt((long long)n));
+  e.set("prefix", mj::Value::mkBool(prefix));
+  e.set("nul", mj::Value::mkBool(nul));
+  e.set("guard", mj::Value::mkBool(guard));
+  e.set("dst", mj::Value::mkStr(dst));
+  return e;
+}
+
+// fixed-size array destinations (the char (&)[N] overloads), N known at compile time
+static const size_t MAXARR = 72;
+template <size_t N, class TChar>
+static mj::Value arrayCase(Which w, const JsonDocument& d, const std::string& ref) {
+  struct { unsigned char g1[GUARD]; TChar arr[N]; unsigned char g2[GUARD]; } s;
+  static_assert(sizeof(s) == N + 2 * GUARD, "layout");
+  memset(&s, 0xEE, sizeof s);
+  size_t n = w == COMPACT ? serializeJson(d, s.arr) : w == PRETTY ? serializeJsonPretty(d, s.arr) : serializeMsgPack(d, s.arr);
+  return judgeBuffer(w, ref, N, n, reinterpret_cast<const unsigned char*>(&s), sizeof(TChar) == 1 && std::is_same<TChar, char>::value ? "char[N]" : std::is_signed<TChar>::value ? "signed char[N]" : "unsigned char[N]");
+}
+typedef mj::Value (*ArrayFn)(Which, const JsonDocument&, const std::string&);
+template <class TChar, size_t... I>
+static const ArrayFn* arrayTable(std::index_sequence<I...>) {
+  static const ArrayFn t[] = {&arrayCase<I + 1, TChar>...};
+  return t;
+}
+
 static mj::Value bufferLaw(Which w, const JsonDocument& d, const std::string& ref, unsigned salt) {
   mj::Value caps = mj::Value::mkArr();
   std::vector<size_t> cs;
@@ -164,24 +205,21 @@ static mj::Value bufferLaw(Which w, const JsonDocument& d, const std::string& re
     for (size_t c : {size_t(0), size_t(1), size_t(2), len / 2, len - 2, len - 1, len, len + 1, len + 2}) cs.push_back(c);
     for (int k = 0; k < 6; k++) { salt = salt * 1103515245u + 12345u; cs.push_back((salt >> 8) % (len + 1)); }
   }
+  static const ArrayFn* tc = arrayTable<char>(std::make_index_sequence<MAXARR>());
+  static const ArrayFn* tu = arrayTable<unsigned char>(std::make_index_sequence<MAXARR>());
+  static const ArrayFn* ts = arrayTable<signed char>(std::make_index_sequence<MAXARR>());
   for (size_t cap : cs) {
-    const size_t G = 8;
+    const size_t G = GUARD;
     std::vector<unsigned char> buf(cap + 2 * G, 0xEE);
     size_t n = serBuf(w, d, buf.data() + G, cap);
-    size_t m = cap < len ? cap : len;
-    bool prefix = n <= cap && memcmp(buf.data() + G, ref.data(), m) == 0;
-    bool guard = true;
-    for (size_t i = 0; i < G; i++) if (buf[i] != 0xEE || buf[G + cap + i] != 0xEE) guard = false;
-    // bytes of the buffer beyond what was produced (and beyond a terminator) must be untouched
-    bool nul = len < cap && buf[G + len] == 0;
-    for (size_t i = m + (nul ? 1 : 0); i < cap; i++) if (buf[G + i] != 0xEE) { if (w == MSGPACK || i != len) guard = false; }
-    mj::Value e = mj::Value::mkObj();
-    e.set("cap", mj::Value::mkInt((long long)cap));
-    e.set("ret", mj::Value::mkInt((long long)n));
-    e.set("prefix", mj::Value::mkBool(prefix));
-    e.set("nul", mj::Value::mkBool(nul));
-    e.set("guard", mj::Value::mkBool(guard));
-    caps.a.push_back(e);
+    caps.a.push_back(judgeBuffer(w, ref, cap, n, buf.data(), "ptr"));
+    if (cap >= 1 && cap <= MAXARR) {
+      caps.a.push_back(tc[cap - 1](w, d, ref));
+      if (cap + 3 >= len) {  // the other character types around the fit boundary
+        caps.a.push_back(tu[cap - 1](w, d, ref));
+        caps.a.push_back(ts[cap - 1](w, d, ref));
+      }
+    }
   }
   return caps;
 }
@@ -201,31 +239,57 @@ static long long printedError(const FloatObs& f) {
   return (long long)ceilq(r);
 }
 
-static bool floatEncodingOk(const FloatObs& f) {
+// how a floating-point value is encoded: the facts WriterTrace.tla judges
+static mj::Value floatEncoding(const FloatObs& f) {
   JsonDocument d;
   if (f.k == 4) d.set((float)f.x); else d.set(f.x);
   std::string s;
   serializeMsgPack(d, s);
-  if (s.empty()) return false;
-  unsigned char c = (unsigned char)s[0];
+  const char* enc = "bad";
+  bool same = false;
+  unsigned char c = s.empty() ? 0 : (unsigned char)s[0];
   if (c == 0xCA && s.size() == 5) {
     uint32_t bits = (uint32_t)be64(s.substr(1));
     float g;
     memcpy(&g, &bits, 4);
-    return std::isnan(f.x) ? std::isnan(g) : (double)g == f.x;
-  }
-  if (c == 0xCB && s.size() == 9) {
+    enc = "f32";
+    same = std::isnan(f.x) ? std::isnan(g) : ((double)g == f.x && std::signbit(g) == std::signbit(f.x));
+  } else if (c == 0xCB && s.size() == 9) {
     uint64_t bits = be64(s.substr(1));
     double g;
     memcpy(&g, &bits, 8);
-    return std::isnan(f.x) ? std::isnan(g) : memcmp(&g, &f.x, 8) == 0;
+    enc = "f64";
+    same = std::isnan(f.x) ? std::isnan(g) : memcmp(&g, &f.x, 8) == 0;
+  } else if (!s.empty()) {
+    // an integer encoding, decoded here (not by the library): value = sign * magnitude
+    bool isInt = true, neg = false;
+    unsigned long long mag = 0;
+    size_t n = s.size();
+    if (c <= 0x7f && n == 1) mag = c;
+    else if (c >= 0xe0 && n == 1) { neg = true; mag = 256 - c; }
+    else if (c >= 0xcc && c <= 0xcf && n == 1 + (size_t(1) << (c - 0xcc))) mag = be64(s.substr(1));
+    else if (c >= 0xd0 && c <= 0xd3 && n == 1 + (size_t(1) << (c - 0xd0))) {
+      unsigned w = 8u << (c - 0xd0);
+      unsigned long long raw = be64(s.substr(1));
+      if (raw >> (w - 1)) { neg = true; mag = (w == 64 ? 0ULL : (1ULL << w)) - raw; } else mag = raw;
+    } else isInt = false;
+    if (isInt) {
+      enc = "int";
+      double ax = std::fabs(f.x);
+      same = ax < 18446744073709551616.0 && (unsigned long long)ax == mag && (mag == 0 || neg == (f.x < 0));
+    }
   }
-  // an integer encoding: must denote the same integral value
-  JsonDocument back;
-  if (deserializeMsgPack(back, s) != DeserializationError::Ok) return false;
-  if (back.is<long long>()) return (double)back.as<long long>() == f.x && f.x == std::floor(f.x);
-  if (back.is<unsigned long long>()) return (double)back.as<unsigned long long>() == f.x && f.x == std::floor(f.x);
-  return false;
+  bool finite = !std::isnan(f.x) && !std::isinf(f.x);
+  bool integral = finite && f.x == std::floor(f.x);
+  mj::Value e = mj::Value::mkObj();
+  e.set("k", mj::Value::mkInt(f.k));
+  e.set("enc", mj::Value::mkStr(enc));
+  e.set("same", mj::Value::mkBool(same));
+  e.set("integral", mj::Value::mkBool(integral));
+  e.set("i64", mj::Value::mkBool(integral && f.x >= -9223372036854775808.0 && f.x < 9223372036854775808.0));
+  e.set("f32", mj::Value::mkBool(finite && (double)(float)f.x == f.x));
+  e.set("u64", mj::Value::mkBool(integral && f.x >= 0 && f.x < 18446744073709551616.0));
+  return e;
 }
 
 // equivalence after a JSON round trip: structure, strings and integers exact, floats within C12
@@ -355,7 +419,7 @@ int main(int argc, char** argv) {
       ev.set("prettycaps", bufferLaw(PRETTY, doc, pretty, salt + 1));
       ev.set("mpcaps", bufferLaw(MSGPACK, doc, mp, salt + 2));
       mj::Value ferr = mj::Value::mkArr();
-      bool fenc = true;
+      mj::Value fenc = mj::Value::mkArr();
       for (auto& f : floats) {
         if (!std::isnan(f.x) && !std::isinf(f.x)) {
           mj::Value e = mj::Value::mkObj();
@@ -363,10 +427,10 @@ int main(int argc, char** argv) {
           e.set("err", mj::Value::mkInt(printedError(f)));
           ferr.a.push_back(e);
         }
-        fenc = fenc && floatEncodingOk(f);
+        fenc.a.push_back(floatEncoding(f));
       }
       ev.set("ferr", ferr);
-      ev.set("fenc", mj::Value::mkBool(fenc));
+      ev.set("fenc", fenc);
       // round trips (C07); raw values are excluded as the property says
       std::string rtmp = mp;
       bool rtjsonok = true, convok = true;
